@@ -319,6 +319,25 @@ impl Runner {
         for p in problems {
             self.res.violate("C37", "O-flags", "flags-vs-contents", self.step, p);
         }
+        // Rides along (plain seeded sampling of a pure rule, not simulation): this version's flag
+        // words are accepted, and the same words with any unknown bit (>= 64) added are refused for
+        // reading and for writing.
+        use lance_table::feature_flags::{can_read_dataset, can_write_dataset};
+        if !can_read_dataset(rf) || !can_write_dataset(wf) {
+            self.res.violate("C37", "O-flags", "own-flags-refused", self.step, format!("flags written by this build are refused: reader={} writer={}", rf, wf));
+        }
+        for _ in 0..4 {
+            let mut extra: u64 = 0;
+            for _ in 0..self.rng.range(1, 3) {
+                extra |= 1u64 << self.rng.range(6, 63);
+            }
+            if can_read_dataset(rf | extra) {
+                self.res.violate("C37", "O-flags", "unknown-reader-flag-accepted", self.step, format!("reader flags {} (known {} + unknown bits {}) accepted", rf | extra, rf, extra));
+            }
+            if can_write_dataset(wf | extra) {
+                self.res.violate("C37", "O-flags", "unknown-writer-flag-accepted", self.step, format!("writer flags {} (known {} + unknown bits {}) accepted", wf | extra, wf, extra));
+            }
+        }
         // all data files carry the table's storage version
         if let Ok(tv) = m.data_storage_format.lance_file_version() {
             let (maj, min) = tv.to_numbers();
